@@ -176,6 +176,7 @@ class C18(Check):
     required_labels = ["ops:2", "ops:3", "kind:sread", "kind:swrite", "kind:validate", "kind:parse", "kind:jwrite", "kind:cread", "logical", "shared-schema", "multi-preemption", "preempted-inside", "cold-start", "kind:fingerprint", "kind:sread_rs", "double-preemption", "failing-operation"]
     quick = (6, 8)
     thorough = (120, 16)
+    case_timeout_s = 3600  # one case = thousands of schedules, some in forked cold processes
 
     def __init__(self):
         self.schedules = 0
